@@ -29,7 +29,7 @@ CONFIGS = {
 
 SAN_ENV = {
     # symbolize=0: the external symbolizer would fork, which the simulated kernel does not allow
-    'ASAN_OPTIONS': 'exitcode=77:detect_leaks=0:abort_on_error=0:allocator_may_return_null=0:max_allocation_size_mb=256:symbolize=0:detect_stack_use_after_return=0',
+    'ASAN_OPTIONS': 'suppressions=' + os.path.join(VERIF, 'sim', 'asan.supp') + ':exitcode=77:detect_leaks=0:abort_on_error=0:allocator_may_return_null=0:max_allocation_size_mb=256:symbolize=0:detect_stack_use_after_return=0',
     'UBSAN_OPTIONS': 'halt_on_error=1:exitcode=77:print_stacktrace=0:symbolize=0',
     'MSAN_OPTIONS': 'exitcode=77:symbolize=0',
 }
